@@ -196,6 +196,15 @@ func (it *interp) reduce(s *state) *state {
 		sigs[d] = sg
 		return sg
 	}
+	msigs := map[*disjunct]string{}
+	msigOf := func(d *disjunct) string {
+		if sg, ok := msigs[d]; ok {
+			return sg
+		}
+		sg := memNilSig(d)
+		msigs[d] = sg
+		return sg
+	}
 	score := func(x, y *disjunct) int {
 		if v, ok := scores[pair{x, y}]; ok {
 			return v
@@ -213,6 +222,9 @@ func (it *interp) reduce(s *state) *state {
 		v := common*2 - len(x.fkeys) - len(y.fkeys)
 		if sigOf(x) != sigOf(y) {
 			v -= 100000 // never merge an error path with a success path if avoidable
+		}
+		if msigOf(x) != msigOf(y) {
+			v -= 1000
 		}
 		scores[pair{x, y}] = v
 		return v
@@ -353,9 +365,106 @@ func (it *interp) merge(a, b *disjunct) *disjunct {
 			m.vals[k] = r
 		}
 	}
-	for k, ca := range a.mem {
-		if cb, ok := b.mem[k]; ok && (ca == cb || repEqual(ca.val, cb.val)) {
+	// memory: a cell survives when both sides agree; cells that differ get a fresh atom constrained by
+	// what both sides entail (a side on which the cell is not materialised but whose object is still
+	// zero-initialised contributes the zero value). A cell that cannot be merged is forgotten, and
+	// with it the "still zero" marker of its object — otherwise a later load would read 0.
+	var mkeys []string
+	seenKey := map[string]bool{}
+	for k := range a.mem {
+		mkeys = append(mkeys, k)
+		seenKey[k] = true
+	}
+	for k := range b.mem {
+		if !seenKey[k] {
+			mkeys = append(mkeys, k)
+		}
+	}
+	sort.Strings(mkeys)
+	dirty := map[string]bool{} // zero markers that must not survive
+	sideRep := func(d *disjunct, k string, other *memCell) (rep, bool) {
+		if c, ok := d.mem[k]; ok {
+			return c.val, true
+		}
+		if _, z := d.mem[zeroMarker(other.a)]; z && other.typ != nil {
+			if zr := it.zeroRep(other.typ); zr.kind != kNone {
+				return zr, true
+			}
+		}
+		return rep{}, false
+	}
+	for _, k := range mkeys {
+		if strings.HasSuffix(k, "|zero") {
+			continue
+		}
+		ca, cb := a.mem[k], b.mem[k]
+		ref := ca
+		if ref == nil {
+			ref = cb
+		}
+		if ca != nil && cb != nil && (ca == cb || repEqual(ca.val, cb.val)) {
 			m.mem[k] = ca
+			continue
+		}
+		ra, oka := sideRep(a, k, ref)
+		rb, okb := sideRep(b, k, ref)
+		merged := false
+		if oka && okb {
+			switch {
+			case repEqual(ra, rb):
+				m.mem[k] = &memCell{a: ref.a, typ: ref.typ, val: ra}
+				merged = true
+			case ra.kind == kInt && rb.kind == kInt && ra.lin != nil && rb.lin != nil && ref.typ != nil:
+				id := it.at.fresh("mem" + ref.a.path)
+				lo, hi, hl, hh := intRange(ref.typ)
+				it.at.setRange(id, lo, hi, hl, hh)
+				at := lin.Var(id)
+				pend = append(pend, pending{valKey{}, ra.lin, rb.lin, at})
+				m.mem[k] = &memCell{a: ref.a, typ: ref.typ, val: rep{kind: kInt, lin: at}}
+				merged = true
+			case ra.kind == kSlice && rb.kind == kSlice && ra.len != nil && rb.len != nil && ra.cap != nil && rb.cap != nil:
+				li, ci := it.at.fresh("len(mem"+ref.a.path+")"), it.at.fresh("cap(mem"+ref.a.path+")")
+				it.at.setRange(li, 0, 0, true, false)
+				it.at.setRange(ci, 0, 0, true, false)
+				l, c := lin.Var(li), lin.Var(ci)
+				pend = append(pend, pending{valKey{}, ra.len, rb.len, l}, pending{valKey{}, ra.cap, rb.cap, c})
+				m.addFact(lin.LE(l, c))
+				r := rep{kind: kSlice, len: l, cap: c}
+				if ra.isnil != nil && rb.isnil != nil {
+					ni := it.at.fresh("isnil(mem" + ref.a.path + ")")
+					it.at.setRange(ni, 0, 1, true, true)
+					r.isnil = lin.Var(ni)
+					pend = append(pend, pending{valKey{}, ra.isnil, rb.isnil, r.isnil})
+				}
+				m.mem[k] = &memCell{a: ref.a, typ: ref.typ, val: r}
+				merged = true
+			case ra.kind == kPtr && rb.kind == kPtr:
+				r := rep{kind: kPtr}
+				if ra.isnil != nil && rb.isnil != nil {
+					ni := it.at.fresh("isnil(mem" + ref.a.path + ")")
+					it.at.setRange(ni, 0, 1, true, true)
+					r.isnil = lin.Var(ni)
+					pend = append(pend, pending{valKey{}, ra.isnil, rb.isnil, r.isnil})
+				}
+				if ra.at != nil && rb.at != nil && ra.at.key() == rb.at.key() {
+					r.at = ra.at
+				}
+				m.mem[k] = &memCell{a: ref.a, typ: ref.typ, val: r}
+				merged = true
+			}
+		}
+		if !merged {
+			dirty[zeroMarker(ref.a)] = true
+		}
+	}
+	for _, k := range mkeys {
+		if !strings.HasSuffix(k, "|zero") || dirty[k] {
+			continue
+		}
+		if ca, ok := a.mem[k]; ok {
+			if _, ok := b.mem[k]; ok {
+				m.mem[k] = ca
+			}
 		}
 	}
 	// facts entailed by both sides
@@ -598,6 +707,32 @@ func nilSig(d *disjunct) string {
 			} else {
 				add(k, k.v.Name(), r)
 			}
+		}
+	}
+	sort.Strings(parts)
+	return strings.Join(parts, ",")
+}
+
+// memNilSig summarises the nil-ness this path has decided for pointer / slice memory cells (a field
+// that is set on one path only: merging the two paths loses the correlation between the field and
+// everything computed from it, so such merges are taken last among same-verdict paths).
+func memNilSig(d *disjunct) string {
+	var parts []string
+	// pointer / slice memory cells whose nil-ness this path has decided (a field that is set on one
+	// path only: merging the two paths would lose the correlation between the field and everything
+	// computed from it)
+	for mk, c := range d.mem {
+		if c == nil || c.val.isnil == nil || strings.HasSuffix(mk, "|zero") {
+			continue
+		}
+		if k, ok := c.val.isnil.ConstVal(); ok {
+			parts = append(parts, fmt.Sprintf("m%s=%d", mk, k))
+			continue
+		}
+		if d.fkeys[lin.LE(c.val.isnil, lin.Const(0)).Key()] {
+			parts = append(parts, fmt.Sprintf("m%s=0", mk))
+		} else if d.fkeys[lin.GE(c.val.isnil, lin.Const(1)).Key()] {
+			parts = append(parts, fmt.Sprintf("m%s=1", mk))
 		}
 	}
 	sort.Strings(parts)
